@@ -161,6 +161,14 @@ def handle (utils : Bytes) (line : String) : String :=
   | ["slug", dataH] => hex (checksumSlug (unhex dataH))
   | ["nameext", fH] => (match nameAndExt (unhex fH) with | some (a, b) => "some " ++ hex a ++ " " ++ hex b | none => "none")
   | ["mangle", alnS, fH] => hex (mangle (fun c => (parseEsc alnS).contains c) (unhex fH))
+  | ["sassname", alnS, namesS, fH] =>
+    let names : List (Bytes × Bytes) := if namesS == "-" then [] else (namesS.splitOn ",").filterMap fun t =>
+      match t.splitOn "=" with
+      | [a, b] => some (unhex a, unhex b)
+      | _ => none
+    (match staticName (fun c => (parseEsc alnS).contains c) names (unhex fH) with
+     | some u => "some " ++ hex u
+     | none => "none")
   | ["mimearg", featS, sufH] =>
     hex (mimeArg (if featS == "mime03" then .mime03 else if featS == "http-types" then .httpTypes else .off) (unhex sufH))
   | ["compile", nameH, srcH, escS] =>
